@@ -65,7 +65,7 @@ def native_run(pid, harness_files, file_of_harness, tests, tag="native"):
 def confirm(pid, n, h, scratch, tdir, logdir):
     """Re-run the failing harness with concrete playback, replay natively. -> (confirmed, replay_path, note)"""
     os.makedirs(logdir + "/playback", exist_ok=True)
-    r = kani.run_harness(scratch, tdir, n, logdir + "/playback", 3600, 14,
+    r = kani.run_harness(scratch, tdir, n, logdir + "/playback", 3600, 40,
                          extra=["-Z", "concrete-playback", "--concrete-playback=print"])
     out = open(r.log, errors="replace").read()
     tests = extract_tests(out)
